@@ -8,7 +8,7 @@ import Driver.Ops
 partial def loop (h : IO.FS.Stream) (out : IO.FS.Stream) : IO Unit := do
   let line ← h.getLine
   if line.isEmpty then return ()
-  let l := (line.dropRightWhile (fun c => c == '\n' || c == '\r'))
+  let l := line.trimAsciiEnd.toString
   if !l.isEmpty then
     out.putStrLn (Driver.handle l)
   loop h out
